@@ -108,7 +108,10 @@ class SourceFile:
     def find_fn(self, locator):
         if ' :: ' in locator:
             hdr, name = locator.rsplit(' :: ', 1)
-            imp = self.find_impl(hdr.strip())
+            if hdr.strip().startswith('trait '):
+                imp = self.find_item('trait', hdr.strip().split()[1])
+            else:
+                imp = self.find_impl(hdr.strip())
             inner = scan_items(self.src, self.ct, imp['tok_body_open'] + 1, imp['tok_end'])
             hits = [it for it in inner if it['kind'] == 'fn' and it['name'] == name.strip()]
         else:
@@ -300,7 +303,7 @@ class Assembler:
         for (a, b, new, kind) in edits:
             if not (s <= a <= b <= e):
                 continue
-            ev.append((a, 1, b, new, None))
+            ev.append((a, -1 if kind == 'rewrite-first' else 1, b, new, None))
         for (pos, lines) in splices:
             ev.append((pos, 0, pos, None, lines))
         ev.sort(key=lambda x: (x[0], x[1], x[2]))
@@ -409,8 +412,10 @@ class Assembler:
         what = key
         s, e = ct[it['tok_qual']].start, ct[it['tok_end']].end
         body_open = it['tok_body_open']
-        if body_open is None:
-            raise LostAnchor('%s: fn %s has no body' % (f, locator))
+        bodiless = body_open is None
+        if bodiless:
+            # trait method declaration `fn f(..) -> T;` : the contract goes in front of the `;`
+            body_open = it['tok_end']
         edits, splices = [], []
         props, attrs = [], []
         fninfo = dict(key=key, name=short, file=f, repo_line=sf.line_of(s), props=props, clauses=[], unit=self.meta['unit'],
@@ -478,7 +483,7 @@ class Assembler:
                         break
                     k += 1
                 edits.append((ct[arrow + 1].start, ct[arrow + 1].start, '(%s: ' % sarg.strip(), 'rewrite'))
-                edits.append((ct[tend - 1].end, ct[tend - 1].end, ')', 'rewrite'))
+                edits.append((ct[tend - 1].end, ct[tend - 1].end, ')', 'rewrite-first'))
                 self.meta['rewrites'].append(dict(kind='name-return', where=what, name=sarg.strip()))
             elif cmd == 'spec':
                 spec_lines = mk_lines(lines, 'spec')
@@ -532,7 +537,7 @@ class Assembler:
             self._apply(sf, s, ct[body_open].start, sig_edits, dict(kind='repo', file=f, fn=None), sp)
             self.emit('{ unimplemented!() }\n\n', dict(kind='contract', file=rel, line=lineno, fn=None, clause_kind='attr', tags=None))
             return
-        if self.vacuity:
+        if self.vacuity and not bodiless:
             self.vac_n = getattr(self, 'vac_n', 0) + 1
             vac = [(lineno, 'vac_marker(%d), // vacuity twin: unprovable unless the context is contradictory' % self.vac_n, dict(kind='contract', file=rel, line=lineno, fn=key, clause_kind='vacuity', tags=None))]
             if spec_lines is None:
@@ -564,6 +569,7 @@ class Assembler:
         if spec_lines:
             splices.append((ct[body_open].start, spec_lines))
         fninfo['loops'] = len(loops)
+        fninfo['bodiless'] = bodiless
         self.meta['fns'][key] = fninfo
         for a in attrs:
             self.emit(a + '\n', dict(kind='contract', file=rel, line=lineno, fn=key, clause_kind='attr', tags=None))
